@@ -7,7 +7,7 @@
   explicit `Outcome.panic` (indexing `packet[0]`, `packet[1:5]`, the `panic("not a global message")` arm,
   a send on / close of a closed Go channel).  Application behaviour is the fixed policy of the harness:
   after every packet the application drains what the mux delivered (Accept channel types starting with 'a',
-  Reject others; answer requests named "yes" with success).
+  leave 'd…' undecided, Reject others; answer requests named "yes" with success).
 -/
 import XC.Model.C35
 namespace XC.C36
@@ -229,22 +229,23 @@ def tryPushMsg (c : Chan) (x : QMsg) : Outcome × Chan :=
 def responseOk (c : Chan) : Option Chan :=
   if c.inbound then none else if c.decided then none else some { c with decided := true }
 
+/-- channel.handleData on a data (hdr = 9) or extended data (hdr = 13) packet -/
+def handleDataPkt (m : Mux) (id : Nat) (c : Chan) (p : Bytes) (hdr code : Nat) : Outcome × Mux × Evs :=
+  if p.length < hdr then (.err, m, []) else
+  match rdU32 (p.drop (hdr - 4)) with
+  | none => (.panic, m, [])                          -- packet[headerLen-4 : headerLen] out of range
+  | some (len, _) =>
+    match C35.handleData c.rcv code len (p.length - hdr) with
+    | .error _ => (.err, m, [])
+    | .ok (r, adj) =>
+      let c := { c with rcv := r }
+      let (c, ev) := if adj = 0 then (c, []) else chanSend c s!"w93:{c.remoteId}:{adj}" false
+      (.ok, setChan m id (some c), ev)
+
 /-- ch.handlePacket for a packet addressed to the known channel `id` -/
 def handleChanPacket (m : Mux) (id : Nat) (c : Chan) (p : Bytes) (t : Nat) : Option (Outcome × Mux × Evs) :=
-  if t = 94 || t = 95 then
-    -- handleData: header length check, then the C35 receiver
-    let hdr := if t = 95 then 13 else 9
-    if p.length < hdr then some (.err, m, []) else
-    let code := if t = 95 then (rdU32 (p.drop 5)).map (·.1) |>.getD 0 else 0
-    match rdU32 (p.drop (hdr - 4)) with
-    | none => some (.panic, m, [])
-    | some (len, _) =>
-      match C35.handleData c.rcv code len (p.length - hdr) with
-      | .error _ => some (.err, m, [])
-      | .ok (r, adj) =>
-        let c := { c with rcv := r }
-        let (c, ev) := if adj = 0 then (c, []) else chanSend c s!"w93:{c.remoteId}:{adj}" false
-        some (.ok, setChan m id (some c), ev)
+  if t = 94 then some (handleDataPkt m id c p 9 0)
+  else if t = 95 then some (handleDataPkt m id c p 13 ((rdU32 (p.drop 5)).map (·.1) |>.getD 0))
   else if t = 97 then
     let (c, ev) := chanSend c s!"w97:{c.remoteId}" true
     -- chanList.remove(localId); ch.close()
@@ -323,7 +324,10 @@ def onePacket (m : Mux) (p : Bytes) : Option (Outcome × Mux × Evs) :=
           let (m, id) := addChan { m with nextUid := m.nextUid + 1 } c
           -- delivered on incomingChannels; application policy: Accept types starting with 'a', else Reject
           let ev1 := s!"nc:{bstr typ}"
-          if typ.head? == some 97 then
+          if typ.head? == some 100 then
+            -- application policy: types starting with 'd' are left undecided (neither Accept nor Reject yet)
+            some (.ok, m, [ev1])
+          else if typ.head? == some 97 then
             let (c, ev) := chanSend { c with decided := true, accepted := true } s!"w91:{pid}:{id}" false
             some (.ok, { setChan m id (some c) with held := m.held ++ [c.uid] }, ev1 :: ev)
           else
@@ -401,7 +405,7 @@ def localOpen (m : Mux) (call : Nat) : Mux × Evs :=
 /-- mux.SendRequest -/
 def localGlobal (m : Mux) (call : Nat) (want : Bool) : Mux × Evs :=
   let m := if want then { m with globalPending := true, globalBuf := none } else m   -- open the gate, drain stale replies
-  if m.ended then ({ m with globalPending := false }, [s!"G{call}=err"])
+  if m.ended then ({ m with globalPending := if want then false else m.globalPending }, [s!"G{call}=err"])
   else if !want then (m, ["w80:0", s!"G{call}=nowait"])
   else ({ m with globalCaller := some call }, ["w80:1"])
 
